@@ -17,8 +17,10 @@ import (
 	"fmt"
 	"math"
 	"sort"
+	"os"
 	"strconv"
 	"strings"
+	"time"
 
 	"pgregory.net/rand"
 
@@ -100,6 +102,12 @@ type row struct {
 	item  *data_model.MultiItem
 	rng   *rand.Rand
 	bad   string
+	// the []byte flavour is driven the way its real callers do (agent ingestion-status path, aggregator
+	// MergeWithTLMultiItem): the top value arrives in ONE receive buffer that is overwritten by the next event, and
+	// sometimes by unrelated bytes right after the call.  A key stored in Top must be a copy of it.
+	buf      [48]byte
+	scribble bool
+	dups     int // keys the real map yielded more than once while ranging (impossible for a healthy map)
 }
 
 
@@ -122,14 +130,24 @@ func (r *row) cur() *data_model.MultiItem {
 }
 
 func snapshot(it *data_model.MultiItem) (top map[tag]agg, tail agg, sf int) {
+	top, tail, sf, _ = snapshotD(it)
+	return
+}
+
+// snapshotD also reports how many entries the range over the real map yielded beyond the distinct keys
+func snapshotD(it *data_model.MultiItem) (top map[tag]agg, tail agg, sf int, dups int) {
 	top = map[tag]agg{}
 	if it == nil {
 		return
 	}
 	for k, v := range it.Top {
-		top[k] = aggOf(v)
+		kc := tag{S: strings.Clone(k.S), I: k.I} // never keep a reference into memory owned by the row's keys
+		if _, ok := top[kc]; ok {
+			dups++
+		}
+		top[kc] = aggOf(v)
 	}
-	return top, aggOf(&it.Tail), data_model.VerifSFLog2(it)
+	return top, aggOf(&it.Tail), data_model.VerifSFLog2(it), dups
 }
 
 type event struct {
@@ -176,7 +194,19 @@ func shardKey(k tag) *data_model.Key {
 func (r *row) write(api string, capacity int, k tag, count float64, e event, host tag, viaApply bool) (mv *data_model.MultiValue) {
 	if r.shard == nil {
 		if api == "b" {
-			mv = r.item.MapStringTopBytes(r.rng, capacity, data_model.TagUnionBytes{S: []byte(k.S), I: k.I}, count)
+			var view []byte
+			if len(k.S) <= len(r.buf) {
+				n := copy(r.buf[:], k.S) // overwrites the bytes of the previous top value
+				view = r.buf[:n:n]
+			} else {
+				view = []byte(k.S)
+			}
+			mv = r.item.MapStringTopBytes(r.rng, capacity, data_model.TagUnionBytes{S: view, I: k.I}, count)
+			if r.scribble {
+				for i := range r.buf {
+					r.buf[i] = 0xEE ^ byte(i)
+				}
+			}
 		} else {
 			mv = r.item.MapStringTop(r.rng, capacity, k, count)
 		}
@@ -526,6 +556,7 @@ func runCase(h *verifx.H, i int, r *verifx.Rng) {
 	if g.degen {
 		h.Stat("case.nonpositive-counts", 1)
 	}
+	allBytes := !shard && r.Chance(1, 3) // every event through MapStringTopBytes, like the aggregator's MergeWithTLMultiItem
 	tot := &totals{}
 	evictedAny, redirectAny := false, false
 	midFinish := -1
@@ -571,8 +602,9 @@ func runCase(h *verifx.H, i int, r *verifx.Rng) {
 			count = q(g.count()) // MapStringTop's count argument is independent of what the caller adds afterwards
 		}
 		api := "s"
-		if !shard && r.Bool() {
+		if !shard && (allBytes || r.Bool()) {
 			api = "b"
+			h.Stat("api.bytes-reused-buffer", 1)
 		}
 		host := g.host()
 
@@ -580,17 +612,31 @@ func runCase(h *verifx.H, i int, r *verifx.Rng) {
 		shadow := *rw.rng
 		u := uint64(shadow.Float64() * (1 << 53))
 		var mv *data_model.MultiValue
-		panicked := func() (p bool) {
+		rw.scribble = r.Chance(1, 3)
+		done := make(chan bool, 1)
+		go func() {
+			p := true
 			defer func() {
-				if x := recover(); x != nil {
-					p = true
+				if p {
+					recover()
 				}
+				done <- p
 			}()
 			mv = rw.write(api, capacity, k, count, e, host, viaApply)
-			return false
+			p = false
 		}()
+		var panicked bool
+		select {
+		case panicked = <-done:
+		case <-time.After(30 * time.Second): // a write takes microseconds; `for len(Top) >= capacity { resample }` can spin
+			h.Op("w %s %d %s %s %d r= %s", api, capacity, keyStr(k), fs(count, unit16), u, e.tokens())
+			h.Obs("hang")
+			h.Viol("write-never-returns", "write %d (api=%s key=%s capacity=%d) did not return within 30s", op, api, keyStr(k), capacity)
+			h.Done()
+			os.Exit(0)
+		}
 		it := rw.cur()
-		postTop, postTail, postSF := snapshot(it)
+		postTop, postTail, postSF, dups := snapshotD(it)
 
 		// witness: rounds and evictions
 		var gone []tag
@@ -669,6 +715,9 @@ func runCase(h *verifx.H, i int, r *verifx.Rng) {
 		}
 
 		// direct oracle
+		if dups > 0 || (it != nil && len(it.Top) != len(postTop)) {
+			h.Viol("duplicate-top-key", "after write %d the top holds %d entries but only %d distinct values (%d yielded twice)", op, len(it.Top), len(postTop), dups)
+		}
 		tot.add(e)
 		checkTotals(h, fmt.Sprintf("after write %d", op), tot, postTop, postTail)
 	}
@@ -759,7 +808,7 @@ func doFinish(h *verifx.H, r *verifx.Rng, rw *row, tot *totals, cluster bool) {
 		whale = it.FinishStringTop(rw.rng, capacity)
 		return false
 	}()
-	postTop, postTail, _ := snapshot(it)
+	postTop, postTail, _, dups := snapshotD(it)
 	var kept, folded []tag
 	for _, k := range sortedKeys(preTop) {
 		if _, ok := postTop[k]; ok {
@@ -786,8 +835,11 @@ func doFinish(h *verifx.H, r *verifx.Rng, rw *row, tot *totals, cluster bool) {
 
 	// ---- direct oracle: at most `capacity` remain, every retained value at least as heavy as every folded one, nothing lost
 	limit := max(capacity, 0)
-	if len(postTop) > limit {
-		h.Viol("finish-over-capacity", "FinishStringTop(%d) left %d top values", capacity, len(postTop))
+	if len(it.Top) > limit {
+		h.Viol("finish-over-capacity", "FinishStringTop(%d) left %d top values", capacity, len(it.Top))
+	}
+	if dups > 0 || len(it.Top) != len(postTop) {
+		h.Viol("duplicate-top-key", "after FinishStringTop(%d) the top holds %d entries but only %d distinct values", capacity, len(it.Top), len(postTop))
 	}
 	for k := range postTop {
 		if _, ok := preTop[k]; !ok {
